@@ -35,6 +35,7 @@ func (db *DB) acquireSnapshot() *snapshotElement {
 		se := e.Value.(*snapshotElement)
 		if se.seq == seq {
 			se.ref++
+			verifTrace(db.s, "s:acq", int64(seq))
 			return se
 		} else if seq < se.seq {
 			panic("leveldb: sequence number is not increasing")
@@ -42,6 +43,7 @@ func (db *DB) acquireSnapshot() *snapshotElement {
 	}
 	se := &snapshotElement{seq: seq, ref: 1}
 	se.e = db.snapsList.PushBack(se)
+	verifTrace(db.s, "s:acq", int64(seq))
 	return se
 }
 
@@ -51,6 +53,7 @@ func (db *DB) releaseSnapshot(se *snapshotElement) {
 	defer db.snapsMu.Unlock()
 
 	se.ref--
+	verifTrace(db.s, "s:rel", int64(se.seq), int64(se.ref))
 	if se.ref == 0 {
 		db.snapsList.Remove(se.e)
 		se.e = nil
